@@ -85,7 +85,34 @@ pub fn start_stall_watchdog(property: &str, out: PathBuf, limit_s: u64) {
     });
 }
 
+/// Marker carried in an error string when a check's own workload could not be executed because the
+/// database misbehaved on a valid step WITHOUT any injected fault or crash (a panic, an unexpected
+/// error, a wrong answer).  The properties are all quantified over these workloads and cannot hold
+/// on a step that fails, so the check reports it (signature `workload:<...>`) instead of calling
+/// the run inconclusive.
+pub const WORKLOAD_FAILED: &str = "WORKLOAD-FAILED|";
+
+pub fn workload_failure(v: Option<&crate::exec::Violation>, fallback: &str) -> String {
+    match v {
+        // the harness's own "no growth while a reader is open on this thread" guard is not the database failing
+        Some(v) if v.detail.contains(crate::c03::GROW_MSG) => format!("{} ({})", fallback, crate::c03::GROW_MSG),
+        Some(v) => format!("{}{}|{}", WORKLOAD_FAILED, v.sig, v.detail),
+        None => fallback.to_string(),
+    }
+}
+
 impl Shard {
+    /// `msg` is either an ordinary reason for an inconclusive case or a `workload_failure` string.
+    pub fn inconclusive_or_workload(&mut self, ctx: &Ctx, context: &str, msg: &str, replay: &serde_json::Value) {
+        if let Some(pos) = msg.find(WORKLOAD_FAILED) {
+            let rest = &msg[pos + WORKLOAD_FAILED.len()..];
+            let (sig, detail) = rest.split_once('|').unwrap_or((rest, ""));
+            self.violation(ctx, &format!("workload:{}", sig), &format!("{} the check's own workload failed without any injected fault: {}", context, detail), replay);
+        } else {
+            self.inconclusive(format!("{} {}", context, msg));
+        }
+    }
+
     pub fn new(property: &str) -> Shard {
         Shard {
             property: property.to_string(),
